@@ -1,10 +1,14 @@
 Require Import List.
 Import ListNotations.
-Require Import QtlVerif.ConcDefs QtlVerif.SrcConc.
+Require Import QtlVerif.ConcDefs QtlVerif.ConcResetDefs QtlVerif.ConcSigDefs QtlVerif.SrcConc.
 Require Extraction.
 Require Import ExtrOcamlBasic.
 (* static facts about the translated entry points, reported by the check in its coverage *)
 Definition src_family_bracketed : bool := bracketed_family src_entry_points.
 Definition src_full_family_guarded : bool := guarded_family src_entry_points.
 Definition src_direct_and_fatal_guarded : bool := guarded_family [src_handler_sk; src_logger_fatal_sk].
-Extraction "conc_model.ml" accept_conc accepted_prefix a0 prop_c02_b src_family_bracketed src_full_family_guarded src_direct_and_fatal_guarded.
+(* resetOwnThread() as translated: drain before quit and clear *)
+Definition src_reset_is_ok : bool := reset_ok src_reset_prog.
+Definition src_signal_anchors : bool := src_signal_emits_in_send && src_signal_autoconnect && src_signal_type_registered.
+Extraction "conc_model.ml" accept_conc accepted_prefix a0 prop_c02_b src_family_bracketed src_full_family_guarded src_direct_and_fatal_guarded
+  accept_sig sig_prefix ss0 prop_sig_b prop_sig_strict_b src_reset_is_ok src_signal_anchors.
